@@ -1,4 +1,5 @@
 import GoPlugin.Lemmas.MuxBroker
+import GoPlugin.Model.GrpcBroker
 import GoPlugin.Lemmas.MuxBrokerTimed
 /-
 C09 — Brokers stay live: unmatched, duplicate or late peers cannot wedge them
@@ -247,5 +248,14 @@ example : ∃ s, runFrom ⟨true, true, true, true, 1, 5000, 5000⟩ init orphan
 /-- non-vacuity of `no_lock_wedge`: the D5 history is a legal history of the fixed source and ends unwedged -/
 example : ∃ s, runFrom ⟨true, true, true, true, 1, 5000, 5000⟩ init wedgeTrace = some s ∧ ¬ LockWedged s := by
   refine ⟨(runFrom ⟨true, true, true, true, 1, 5000, 5000⟩ init wedgeTrace).get (by decide), by simp, by decide⟩
+
+/-- **A gRPC broker dial whose peer closed its listener mid-negotiation returns** — also when the caller asked for a
+blocking dial (`grpc.WithBlock()` among its own options). -/
+theorem gone_peer_dial_returns (D : GrpcBroker.DialParams) (hD : D.Good) (callerBlocks : Bool) :
+    GrpcBroker.gonePeerDialReturns D callerBlocks = true := by
+  simp [GrpcBroker.gonePeerDialReturns, hD.2.2.2]
+
+/-- Witness: without fail-fast a blocking dial to a vanished listener retries for ever -/
+theorem no_fail_fast_witness : GrpcBroker.gonePeerDialReturns ⟨true, true, true, false⟩ true = false := by decide
 
 end GoPlugin.Props.C09
